@@ -734,6 +734,69 @@ def main():
                 continue  # the name is not accepted by the lookup: nothing to claim
             if def_tuple(back) != def_tuple(d):
                 ck.violation(f"C15/name-roundtrip/{fam}", f"the definition's own name {d.name!r} is accepted by the lookup but maps to a different definition", {"case": {"family": "name-roundtrip", "name": d.name}})
+    # conjugacy_classes without sampling: the generators are the whole class, once each, named (type)_1.. in order
+    def partitions(n, top=None):
+        top = top or n
+        if n == 0:
+            yield []
+            return
+        for k in range(min(n, top), 0, -1):
+            for rest in partitions(n - k, k):
+                yield [k] + rest
+
+    def class_size(n, lens):
+        from math import factorial
+
+        size = factorial(n)
+        for l in set(lens):
+            size //= l ** lens.count(l) * factorial(lens.count(l))
+        return size
+
+    def cycle_type(p):
+        seen, out = set(), []
+        for i in range(len(p)):
+            if i not in seen:
+                k, j = 0, i
+                while j not in seen:
+                    seen.add(j)
+                    j = p[j]
+                    k += 1
+                out.append(k)
+        return sorted(out, reverse=True)
+
+    rng = ck.rng
+    for n in list(range(2, 8)) + [9, 10]:
+        for lens in partitions(n):
+            if len(lens) == lens.count(1) or class_size(n, lens) > (800 if not ck.thorough else 30000):
+                continue
+            key = [l for l in lens if l > 1] + [1] * rng.randint(0, lens.count(1))
+            rng.shuffle(key)
+            case = {"family": "conjugacy_classes", "n": n, "key": key}
+            ck.case(["conjugacy_classes", n, key], True)
+            ck.count("conjugacy_classes")
+            try:
+                d = PG.conjugacy_classes(n, {tuple(key): None})
+                d2 = prepare_graph("conjugacy_class", n=n, classes={tuple(key): None})
+            except (AssertionError, ValueError, KeyError, IndexError) as ex:
+                ck.violation("C15/conjugacy_classes/raises", f"conjugacy_classes({n}, {key}) raised {type(ex).__name__}: {ex}", {"case": case})
+                continue
+            gens = [list(map(int, g)) for g in d.generators_permutations]
+            tname = ",".join(map(str, lens))
+            bad = None
+            if len(gens) != class_size(n, lens):
+                bad = f"{len(gens)} generators, the class has {class_size(n, lens)} permutations"
+            elif len({tuple(g) for g in gens}) != len(gens):
+                bad = "a permutation of the class is listed twice"
+            elif any(sorted(g) != list(range(n)) or cycle_type(g) != lens for g in gens):
+                bad = "a generator is not a permutation of the documented cycle type"
+            elif list(d.generator_names) != [f"({tname})_{i + 1}" for i in range(len(gens))]:
+                bad = "generator names are not (type)_1 .. (type)_k"
+            elif list(d.central_state) != list(range(n)) or d.name != f"conjugacy_class-{n}-{tname}":
+                bad = f"central state or name wrong ({d.name})"
+            elif def_tuple(d2) != def_tuple(d):
+                bad = "lookup by name differs from the constructor"
+            if bad:
+                ck.violation("C15/conjugacy_classes", f"conjugacy_classes({n}, {{{tuple(key)}: None}}): {bad}", {"case": case})
     ck.assumptions = [
         "sampling constructors (rand_generators, conjugacy_classes with sampling) are checked for validity only through C20; sheveleva2 by the exhaustive comparison with the Lean specification when available",
         "group orders by Schreier-Sims (sympy, tooling venv) for sizes <= 8 where the documentation names the group",
